@@ -45,6 +45,7 @@ static vh::Out out;
 //                       a<n>:<m> fft(xc(m), n)    b<n>:<m> fft(xr(m), n)    B<n>:<m> rfft(xr(m), n)        (m < n pads, m > n truncates)
 //                       W<n>:<m> welch(xr(3m+m/2+1), hann(m), m/2, nfft = n)    V<n>:<m> the same with complex input    M<n>:<m> mscohere(x, y, hamming(m), m/2, nfft = n)
 //                       P<n> sinad(xr(n)) (periodogram, nfft = 2^nextpow2(n))   H<n>:<m> hilbert(xr(m), n)
+//                       G<n>:<m> S = stft(xr(3m+m/2+1), hann(m), m/2, nfft = n) followed by istft(S, same parameters)   (spectrogram with a window shorter than nfft)
 //                       x<n>:<m> xcorr(xc(n), xc(m))   X<n>:<m> xcorr(xr(n), xr(m))   L<n>:<m> FftFilter(xc(m)).process(xc(n))   d<n>:<m> finddelay(xr(n), xr(m))
 //                       y<n>:<m> resample(xr(n), m / 100, m % 100)   (pads internally, no transform)
 //                       I<n>:<m> m times irfft(X, n) of the same spectrum X = fft(xr(n)); all m results must be identical (result = that of i<n>)
@@ -52,7 +53,7 @@ static vh::Out out;
 struct Op { char kind; int n; int m; };
 
 static bool is_rejected_kind(char k) { return std::strchr("oOwpqjZSUTEQ", k) != nullptr; }
-static bool two_param_kind(char k) { return std::strchr("zZabBWVMHxXLdyIQ", k) != nullptr; }
+static bool two_param_kind(char k) { return std::strchr("zZabBWVMHGxXLdyIQ", k) != nullptr; }
 
 static std::string op_str(const Op& o) {
     std::string s(1, o.kind);
@@ -82,6 +83,7 @@ static std::string describe(const Op& o) {
     case 'V': return "welch(xc(" + std::to_string(3 * o.m + o.m / 2 + 1) + "), hann(" + m + "), noverlap=" + std::to_string(o.m / 2) + ", nfft=" + n + ")";
     case 'M': return "mscohere(xr(L), flip(xr(L)) + 0.5 xr(L), hamming(" + m + "), noverlap=" + std::to_string(o.m / 2) + ", nfft=" + n + "), L=" + std::to_string(3 * o.m + o.m / 2 + 1);
     case 'P': return "sinad(xr(" + n + "))";
+    case 'G': return "S = stft(xr(" + std::to_string(3 * o.m + o.m / 2 + 1) + "), hann(" + m + ", periodic), overlap=" + std::to_string(o.m / 2) + ", nfft=" + n + "); istft(S, same window, overlap, nfft)";
     case 'H': return "hilbert(xr(" + m + "), " + n + ")";
     case 'x': return "xcorr(xc(" + n + "), xc(" + m + "))";
     case 'X': return "xcorr(xr(" + n + "), xr(" + m + "))";
@@ -178,6 +180,13 @@ static Result run_op(const Op& o) {
             break;
         }
         case 'P': r.push_back(sinad(in_r(o.n))); break;
+        case 'G': {
+            const arr_real w = window::hann(o.m, false);
+            const auto S = stft(in_r(3 * o.m + o.m / 2 + 1), w, o.m / 2, o.n, StftRange::Onesided);
+            for (const auto& fr : S) push(fr);
+            pushr(istft(S, w, o.m / 2, o.n, StftRange::Onesided, OverlapMethod::Wola));
+            break;
+        }
         case 'H': push(hilbert(in_r(o.m), o.n)); break;
         case 'x': push(xcorr(in_c(o.n), in_c(o.m))); break;
         case 'X': pushr(xcorr(in_r(o.n), in_r(o.m))); break;
@@ -301,9 +310,9 @@ static const Op LL_OPS[3] = {{'c', 60, 0}, {'c', 47, 0}, {'r', 90, 0}};
 
 // one history, executed by the CALLING thread (which must be fresh: no transform call before).  References must exist already.
 // `concurrent`: other histories run at the same time in other threads (the process-wide "case in flight" is then set by the caller)
-static void exec_history(const std::vector<Op>& h, bool with_long_lived, bool concurrent, std::string& lhs, std::string& rhs) {
+static void exec_history(const std::vector<Op>& h, bool with_long_lived, bool concurrent, std::string& lhs, std::string& rhs, const std::string& others = "") {
     const Op* ll_ops = LL_OPS;
-    const std::string ctx = concurrent ? " [while other threads run their own histories]" : "";
+    const std::string ctx = concurrent ? " [while other threads run their own histories; transform lengths of all threads: " + others + "]" : "";
     {
         const int cap = verif_fft_cache_capacity();
         lhs = "hist " + std::to_string(cap) + " " + std::to_string(with_long_lived ? 1 : 0) + " " + std::to_string(h.size());
@@ -331,11 +340,11 @@ static void exec_history(const std::vector<Op>& h, bool with_long_lived, bool co
             if (!is_rejected_kind(o.kind) && got.threw) h_fail("C10:valid-call-threw", witness_json(h, int(i), "a valid call ended with an exception" + ctx));
             h_stat(is_rejected_kind(o.kind) ? "ops_rejected_calls" : "ops_valid_calls");
             if (!is_rejected_kind(o.kind) && i > 0 && is_rejected_kind(h[i - 1].kind)) h_stat("valid_calls_directly_after_a_rejected_call");
-            if (std::strchr("abBWVMHP", o.kind)) {   // input-length relation of the n-point calls, and repeats of one n with another input length
+            if (std::strchr("abBWVMHPG", o.kind)) {   // input-length relation of the n-point calls, and repeats of one n with another input length
                 if (std::strchr("abBH", o.kind)) h_stat(o.m < o.n ? "npoint_calls_input_shorter" : o.m == o.n ? "npoint_calls_input_equal" : "npoint_calls_input_longer");
                 for (int j = int(i) - 1; j >= 0; --j) {
                     const Op& q = h[j];
-                    if (!std::strchr("abBWVMHP", q.kind)) continue;
+                    if (!std::strchr("abBWVMHPG", q.kind)) continue;
                     if (q.n == o.n && q.m > o.m && o.m < o.n) h_stat("padded_calls_after_a_longer_input_at_the_same_n");
                     if (q.n == o.n && q.m < o.m) h_stat("padded_calls_after_a_shorter_input_at_the_same_n");
                     break;
@@ -384,6 +393,7 @@ static void note_history(const std::vector<Op>& h) {
 
 // executes one history in a fresh thread
 static void run_history(const std::vector<Op>& h, bool with_long_lived, bool emit_corr) {
+    if (g_ref.size() > 40000) g_ref.clear();   // the random histories name ever new (n, m) pairs: references are cheap to recompute, memory is bounded
     for (auto& o : h) reference(o);   // make sure references exist (computed in their own threads)
     for (auto& o : LL_OPS) reference(o);
     std::string lhs, rhs;
@@ -396,6 +406,7 @@ static void run_history(const std::vector<Op>& h, bool with_long_lived, bool emi
 // several histories at the same time, one fresh thread each, released together.  Every thread has its own plan caches, so each must
 // behave exactly as if it ran alone: same bits as the fresh-thread references (computed beforehand, one thread at a time), same key lists.
 static void run_concurrent(const std::vector<std::vector<Op>>& hs, bool with_long_lived) {
+    if (g_ref.size() > 40000) g_ref.clear();
     for (auto& h : hs) for (auto& o : h) reference(o);
     for (auto& o : LL_OPS) reference(o);
     std::string js = "{\"op\":\"concurrent histories\",\"what\":\"crash or hang while these histories ran at the same time, one thread each\",\"threads\":" + std::to_string(hs.size()) + ",\"histories_first_40_ops\":[";
@@ -407,6 +418,13 @@ static void run_concurrent(const std::vector<std::vector<Op>>& hs, bool with_lon
     js += "],\"inputs\":\"" + std::string(GENERATORS) + "\"}";
     vh::set_current("C10:crash-concurrent-histories", js);
     std::vector<std::string> lhs(hs.size()), rhs(hs.size());
+    std::string others;   // which lengths each thread works on (part of every witness of the batch)
+    for (size_t t = 0; t < hs.size(); ++t) {
+        std::vector<int> ns;
+        for (auto& o : hs[t]) if (std::find(ns.begin(), ns.end(), o.n) == ns.end()) ns.push_back(o.n);
+        std::sort(ns.begin(), ns.end());
+        others += (t ? "; thread " : "thread ") + std::to_string(t) + ":" + vh::join_ints(ns);
+    }
     std::atomic<int> ready{0};
     std::atomic<bool> go{false};
     std::vector<std::thread> ts;
@@ -414,7 +432,7 @@ static void run_concurrent(const std::vector<std::vector<Op>>& hs, bool with_lon
         ts.emplace_back([&, t] {
             ++ready;
             while (!go.load()) std::this_thread::yield();
-            exec_history(hs[t], with_long_lived, true, lhs[t], rhs[t]);
+            exec_history(hs[t], with_long_lived, true, lhs[t], rhs[t], others);
         });
     while (ready.load() < int(hs.size())) std::this_thread::yield();
     go = true;
@@ -769,9 +787,9 @@ int main(int argc, char** argv) {
                                 {'a', 60, 45}, {'a', 60, 7}, {'b', 60, 31}, {'b', 60, 77}};
     const std::vector<Op> AP2 = {{'a', 97, 31}, {'a', 97, 10}, {'b', 97, 96}, {'b', 97, 31}, {'b', 97, 10}, {'a', 16, 15}, {'a', 16, 1}, {'b', 16, 9}, {'b', 16, 2}, {'c', 16, 0}, {'r', 97, 0}};
     // ---- what is built on them: welch (real / complex) and mscohere with several window lengths at one nfft, the periodogram of sinad (48 and 40 -> nfft 64),
-    //      hilbert(x, n); and a rejected welch call (nfft not a power of two)
+    //      hilbert(x, n), the stft / istft pair with windows shorter than nfft; and a rejected welch call (nfft not a power of two)
     const std::vector<Op> AS = {{'W', 64, 48}, {'W', 64, 16}, {'W', 64, 64}, {'V', 64, 48}, {'V', 64, 16}, {'M', 64, 32}, {'M', 64, 12}, {'P', 48, 0}, {'P', 40, 0},
-                                {'H', 64, 48}, {'H', 64, 20}, {'Q', 60, 16}, {'b', 64, 30}};
+                                {'H', 64, 48}, {'H', 64, 20}, {'Q', 60, 16}, {'b', 64, 30}, {'G', 64, 48}, {'G', 64, 16}};
     // ---- calls that pad internally (xcorr 20+13 and 16+10 -> 32; FftFilter 8 and 5 taps -> 16, 17 taps -> 64; finddelay -> 32; resample: no transform)
     const std::vector<Op> AX = {{'x', 20, 13}, {'x', 16, 10}, {'X', 20, 13}, {'X', 9, 5}, {'L', 40, 8}, {'L', 40, 5}, {'L', 100, 17}, {'d', 30, 20}, {'d', 17, 31},
                                 {'y', 50, 302}, {'y', 37, 203}, {'a', 32, 10}, {'a', 16, 12}};
@@ -862,9 +880,9 @@ int main(int argc, char** argv) {
                     default: m = 1 + int(rng.next() % uint64_t(nn)); break;
                     }
                     if (spectral) {
-                        m = std::max(2, std::min(m, nn));
-                        const char kinds[5] = {'W', 'V', 'M', 'H', 'b'};
-                        h.push_back({kinds[rng.next() % 5], nn, m});
+                        m = std::max(3, std::min(m, nn));   // (window::hann(2, periodic) and hann(1) throw: the window functions are not this property's subject)
+                        const char kinds[6] = {'W', 'V', 'M', 'H', 'b', 'G'};
+                        h.push_back({kinds[rng.next() % 6], nn, m});
                     } else {
                         const char kinds[4] = {'a', 'b', 'B', 'H'};
                         h.push_back({kinds[rng.next() % 4], nn, m});
